@@ -1,0 +1,12 @@
+//go:build verif
+
+package did
+
+// Contracts for the deductive verifier in /verif (govc). Comment-only file.
+
+//@ pure func didDefined(d DID) bool = d.code != 0 || len(d.bytes) > 0
+//@
+//@ func (DID).Defined
+//@   inline
+//@   ensures [C10,C16] spec: result == didDefined(d)
+//@   assigns [C20] nothing
